@@ -4,6 +4,7 @@
 -/
 import FwdVerif.Driver.C16
 import FwdVerif.Driver.Req
+import FwdVerif.Driver.Resp
 
 open FwdVerif
 
@@ -11,6 +12,7 @@ def dispatch (line : String) : String :=
   match (line.trimAscii.toString).splitOn " " with
   | "C16" :: rest => C16.handle rest
   | "REQ" :: rest => Req.handle rest
+  | "RESP" :: rest => Resp.handle rest
   | ["ping"] => "pong"
   | _ => "bad-op"
 
